@@ -23,13 +23,16 @@ SUBS = {
     "b": (5, 1, refcodec.v4("192.0.2.51", 3005)),
     "c": (6, 0, refcodec.v4("192.0.2.51", 3006)),
     "d": (5, 0, refcodec.v4("192.0.2.51", 3099)),  # like 'a', other endpoint: a different subscription
+    "e": (5, 0, refcodec.v4("192.0.2.51", 3055)),  # at a second service instance (instance id 2) of the same endpoint
 }
+INSTANCE_OF = {"e": 2}
 MSGS = {
     "sub-a1": [("a", 1)], "sub-a2": [("a", 2)], "sub-ainf": [("a", INF)], "stop-a": [("a", 0)],
     "sub-b2": [("b", 2)], "stop-b": [("b", 0)], "sub-c2": [("c", 2)], "stop-c": [("c", 0)],
     "stop-a+sub-a2": [("a", 0), ("a", 2)], "sub-a2+sub-c2": [("a", 2), ("c", 2)],
     "sub-d2": [("d", 2)], "stop-d": [("d", 0)],
     # one message that holds the same entry twice with the opposite entry in between: three operations, in order
+    "sub-e2": [("e", 2)], "sub-einf": [("e", INF)], "stop-e": [("e", 0)], "sub-a2+sub-e2": [("a", 2), ("e", 2)],
     "stop-a+sub-a2+stop-a": [("a", 0), ("a", 2), ("a", 0)], "sub-a2+stop-a+sub-a2": [("a", 2), ("a", 0), ("a", 2)],
 }
 
@@ -80,6 +83,10 @@ class Sys(e1.TimedSys):
         self.inst = sd.ServiceInstance(cfg_.Service(self.sid, 1, 1, 0, eventgroups=frozenset({5, 6})),
                                        self.listener, self.prot.announcer, self.prot.timings)
         self.prot.announcer.announce_service(self.inst)
+        if cfg.get("two_instances"):
+            self.inst2 = sd.ServiceInstance(cfg_.Service(self.sid, 2, 1, 0, eventgroups=frozenset({5})),
+                                            self.listener, self.prot.announcer, self.prot.timings)
+            self.prot.announcer.announce_service(self.inst2)
         self.prot.announcer.start()
         self.loop.settle()
         self.prot.transport.sent.clear()
@@ -93,7 +100,7 @@ class Sys(e1.TimedSys):
         super().close()
 
     def roots(self):
-        return [self.prot, self.inst, self.listener, self.model]
+        return [self.prot, self.inst, self.listener, self.model] + ([self.inst2] if self.cfg.get("two_instances") else [])
 
     def key(self):
         c = canon.Canon(self.loop)
@@ -156,7 +163,7 @@ class Sys(e1.TimedSys):
             entries = []
             for sk, ttl in MSGS[name]:
                 eg, counter, ep = SUBS[sk]
-                entries.append(("subscribe", self.sid, 1, 1, ttl, (counter << 16) | eg, (ep,), ()))
+                entries.append(("subscribe", self.sid, INSTANCE_OF.get(sk, 1), 1, ttl, (counter << 16) | eg, (ep,), ()))
                 key = (cl, sk)
                 if not uflag:
                     continue
@@ -329,6 +336,11 @@ def configs(ctx):
                                   deviations=0, fine=1), ctx.pick(3, 5)))
     ident = [("C1", n, "n") for n in ("sub-a2", "stop-a", "sub-d2", "stop-d", "sub-b2", "stop-a+sub-a2+stop-a", "sub-a2+stop-a+sub-a2")]
     out.append(("identity", dict(sid=sid, advs=(None, "next"), menu=ident, controls=(), deviations=0, fine=0), CLOSURE))
+    # one subscriber at two service instances of the endpoint: a reboot ends its subscriptions at both
+    two = [("C1", n, "n") for n in ("sub-a2", "stop-a", "sub-e2", "sub-einf", "stop-e")] + \
+        [("C1", n, "r") for n in ("sub-a2", "sub-e2", "sub-a2+sub-e2", "stop-a")] + [("C2", "sub-e2", "n"), ("C2", "sub-e2", "r")]
+    out.append(("two-instances", dict(sid=sid, advs=(None, "next"), menu=two, controls=(), deviations=0, fine=0, two_instances=True),
+                CLOSURE))
     both = [("C1", n, e) for n in ("sub-a2", "stop-a") for e in ("n", "r", "m", "M")]
     out.append(("C1-both-channels", dict(sid=sid, advs=(None, "next"), menu=both, controls=(), deviations=0, fine=0), CLOSURE))
     uf = [("C1", n, e) for n in ("sub-a2", "stop-a", "sub-c2") for e in ("n", "r", "nu", "ru")]
